@@ -254,7 +254,9 @@ func TestVerifC18DialSequences(t *testing.T) {
 		"carve 10.0.0.5:8080": {{Scheme: "http", Host: "10.0.0.5", Port: "8080", IP: net.ParseIP("10.0.0.5")}, {Scheme: "https", Host: "h1.example", Port: "443"}},
 		"carve 127.0.0.1:80":  {{Scheme: "http", Host: "127.0.0.1", Port: "80", IP: net.ParseIP("127.0.0.1")}},
 		"carve ::1:8080":      {{Scheme: "http", Host: "::1", Port: "8080", IP: net.ParseIP("::1")}},
-		"none":                nil,
+		// two carve-outs with different addresses AND different ports: only the two listed pairs are admitted, never the cross pairs
+		"carve 127.0.0.1:80 + 10.0.0.5:8080": {{Scheme: "http", Host: "127.0.0.1", Port: "80", IP: net.ParseIP("127.0.0.1")}, {Scheme: "http", Host: "10.0.0.5", Port: "8080", IP: net.ParseIP("10.0.0.5")}},
+		"none":                               nil,
 	}
 	type request struct {
 		answers []string
@@ -363,6 +365,9 @@ func TestVerifC18Dial(t *testing.T) {
 		"carve 127.0.0.1:80":  {{Scheme: "http", Host: "127.0.0.1", Port: "80", IP: net.ParseIP("127.0.0.1")}},
 		"hostname only":       {{Scheme: "https", Host: "internal.example", Port: "443"}},
 		"carve ::1:8080":      {{Scheme: "http", Host: "::1", Port: "8080", IP: net.ParseIP("::1")}},
+		// two carve-outs with different addresses AND different ports (plus a hostname entry on each port so that stage 1
+		// lets a name through whose answers then include the other carve-out's address)
+		"carve 127.0.0.1:80 + 10.0.0.5:8080": {{Scheme: "http", Host: "127.0.0.1", Port: "80", IP: net.ParseIP("127.0.0.1")}, {Scheme: "http", Host: "10.0.0.5", Port: "8080", IP: net.ParseIP("10.0.0.5")}},
 	}
 	var alNames []string
 	for k := range allowlists {
